@@ -22,7 +22,10 @@ def main():
     if not os.path.isabs(demo_loc):
         demo_loc = os.path.join(wt, demo_loc)
     res = {}
-    # patch must be exactly the diff of tracked source files
+    # normalise the worktree: exactly seeded/patch.diff applied on a clean checkout, demo copied into place
+    sh("git checkout -- . && git apply seeded/patch.diff", wt)
+    if not os.path.exists(demo_loc) and os.path.exists(os.path.join(wt, "seeded", "demo.rs")):
+        shutil.copy(os.path.join(wt, "seeded", "demo.rs"), demo_loc)
     rc, out = sh("git diff --stat", wt)
     res["diff_stat"] = out.strip().splitlines()[-3:]
     rc1, out1 = sh(demo_cmd, wt)
@@ -40,10 +43,10 @@ def main():
     if moved:
         shutil.move(hidden, demo_loc)
     # without the change
-    sh("git diff > /tmp/seeded_verify.patch && git checkout -- .", wt)
+    sh("git checkout -- .", wt)
     rc3, out3 = sh(demo_cmd, wt)
     res["demo_without_change_passes"] = rc3 == 0
-    sh("git apply /tmp/seeded_verify.patch", wt)
+    sh("git apply seeded/patch.diff", wt)
     res["confirmed"] = bool(res["demo_with_change_fails"] and res["suite_with_change_passes"] and res["demo_without_change_passes"])
     json.dump(res, open(os.path.join(wt, "seeded", "verified.json"), "w"), indent=1)
     print(json.dumps(res, indent=1))
